@@ -1462,6 +1462,10 @@ func (a *Act) applyContract(st *State, callee *ssa.Function, fc *FuncContract, a
 	post := &specEnv{a: nil, tr: tr, pkg: fc.pkg, st: st, old: pre, errs: &errs,
 		vars: a.bindContract(fc, st, args, results, sig, true)}
 	for _, c := range fc.ensures {
+		if c.hasTag("local") {
+			// proved at every return of the body over its local names; says nothing to callers
+			continue
+		}
 		if c.assumed() {
 			tr.usedAssumed[fc.name+": "+c.text] = true
 		}
@@ -1474,6 +1478,15 @@ func (a *Act) applyContract(st *State, callee *ssa.Function, fc *FuncContract, a
 		tr.specErr(fmt.Sprintf("%s (call from %s): %s", fc.name, fnName(a.fn), m))
 	}
 	return results
+}
+
+func (c *clause) hasTag(tag string) bool {
+	for _, t := range c.tags {
+		if t == tag {
+			return true
+		}
+	}
+	return false
 }
 
 // assumed: the clause is tagged @assume: used by callers, not proved on the body.
